@@ -3,6 +3,7 @@ import RsslVerif.Lemmas.Conv
 import RsslVerif.Lemmas.OverloadLazy
 import RsslVerif.Lemmas.OverloadT
 import RsslVerif.Lemmas.OverloadCall
+import RsslVerif.Lemmas.OverloadSeq
 import RsslVerif.Gen.ResolveShape
 import RsslVerif.Model.OverloadSrc
 /-!
@@ -15,6 +16,7 @@ candidate lists, arities and argument lists (no size bound), with the conversion
 namespace RsslVerif.Thm.C16
 open RsslVerif.Gen.RankTable RsslVerif.Model.Conv RsslVerif.Model.Overload RsslVerif.Spec.Overload
 open RsslVerif.Lemmas.Overload RsslVerif.Lemmas.Conv RsslVerif.Lemmas.OverloadT RsslVerif.Lemmas.OverloadCall
+open RsslVerif.Lemmas.OverloadSeq
 
 /-! ## facts about the extracted tables (a one-cell change of casting.rs breaks one of these) -/
 
@@ -655,6 +657,86 @@ theorem out_vec1_is_refused :
 /-! ## the tie of the hand-written model to the source text
 
 `Gen.ResolveShape` is re-extracted from typer/src/typer/{expressions,scopes}.rs on every run. -/
+
+/-! ## calls interleaved with declarations (`Model/OverloadSeq.lean`)
+
+The type checker walks a translation unit once; `runSeq` is that walk for the overloads of one name: declarations push
+onto the symbol vector of their scope, a struct registers all its methods first, the compiler's own overloads lead the
+root vector, definitions of declared functions insert nothing, call sites resolve against the vector `find_identifier`
+hands over at that moment, and a call inside a template body is resolved when the first call of that instance is
+type checked.  `Spec.visibleAt` says, without any walk, which candidates the property calls *visible* at a place. -/
+
+/-- **The verdict at a call site is the resolution on the candidates visible at the site, and on nothing else.**
+    For every translation unit `pre ++ [site] ++ post` on every path: what the site shows is `callT` (resolution,
+    then the output-argument check) on `Spec.visibleAt` — the overloads declared above the call in the scope the
+    lookup reaches (all methods for a method call) — or "unknown name" when there is none.  No other item of the
+    unit takes part: not what is declared below the call, not the definitions of declared functions, not the call
+    sites, template helpers and instantiations above it (`visibleAt` does not look at them): **no state is carried from
+    one call site to the next**. -/
+theorem site_verdict_is_resolution_of_visible (p : SeqPath) (pre post : List SeqItem) (m : Nat) (x : List TArg)
+    (a : List ETy) (o : SiteObs) :
+    (pre.length, o) ∈ runSeq p (pre ++ .site m x a :: post) ↔ o = siteObs (visibleAt p pre post m) x a :=
+  site_obs_iff p pre post m x a o
+
+/-- **`visible_prefix_independent`: the verdict of a site is a function of the *set* visible at it.**  Two call sites
+    with the same arguments — in the same unit or in different ones, on the same path or on different ones, at any
+    places, looked up in any way, with whatever calls, definitions, helpers and later declarations around them — that
+    see the same candidates in any two orders show the same verdict (accepted with the same overload / refused for the
+    same reason / ambiguous between the same overloads / unmatched). -/
+theorem visible_prefix_independent (p p' : SeqPath) (pre post pre' post' : List SeqItem) (m m' : Nat)
+    (x : List TArg) (a : List ETy) (v v' : List TCand) (o o' : SiteObs)
+    (hv : visibleAt p pre post m = some v) (hv' : visibleAt p' pre' post' m' = some v')
+    (hperm : List.Perm v v') (hid : (v.map (·.id)).Nodup)
+    (ho : (pre.length, o) ∈ runSeq p (pre ++ .site m x a :: post))
+    (ho' : (pre'.length, o') ∈ runSeq p' (pre' ++ .site m' x a :: post')) :
+    o.normalize = o'.normalize := by
+  rw [(site_obs_iff p pre post m x a o).mp ho, (site_obs_iff p' pre' post' m' x a o').mp ho', hv, hv']
+  simp only [siteObs, SiteObs.normalize]
+  rw [callT_perm hperm x a hid]
+
+/-- the same when nothing is visible at either site: both report the unknown name -/
+theorem nothing_visible_is_unknown_name (p : SeqPath) (pre post : List SeqItem) (m : Nat) (x : List TArg)
+    (a : List ETy) (o : SiteObs) (hv : visibleAt p pre post m = none)
+    (ho : (pre.length, o) ∈ runSeq p (pre ++ .site m x a :: post)) : o = .noname := by
+  rw [(site_obs_iff p pre post m x a o).mp ho, hv]; rfl
+
+/-- **A call in a template body** shows, when the call that instantiates the helper is type checked: nothing, if that
+    instance has a body already; else the resolution on what is visible *at the instantiating call* (in the scope the
+    helper was declared in) — not at the place of the template.  (`noname` alone: no helper of that number.) -/
+theorem template_body_site_resolved_at_first_instantiation (p : SeqPath) (pre post : List SeqItem) (j z : Nat)
+    (o : SiteObs) (h : (pre.length, o) ∈ runSeq p (pre ++ .trigger j z :: post)) :
+    o = .cached ∨ o = .noname ∨
+      ∃ m a, lookupHelper j (stateAfter p (SeqState.init p (pre ++ .trigger j z :: post)) pre).helpers = some (m, a) ∧
+        o = siteObs (visibleAt p pre post m) [] a :=
+  trigger_obs p pre post j z o h
+
+/-- every observation belongs to a call site or an instantiating call of the unit, at its place -/
+theorem observations_are_at_places (p : SeqPath) (items : List SeqItem) (n : Nat) (o : SiteObs)
+    (h : (n, o) ∈ runSeq p items) : n < items.length := by
+  have := runFrom_pos p (SeqState.init p items) 0 items n o h
+  omega
+
+/-- non-vacuity, and the shape of the seeded defect "memoised resolution": `f(float)`; call `f(int_var)`; `f(int)`;
+    the same call again, once more after the definition of `f(float)`, and from inside a template instantiated before
+    and after: the second call sees two candidates and selects the exact one -/
+example :
+    let fl : TCand := ⟨0, [], [⟨.conc ⟨{}, .scalar .float32⟩, .in⟩], 1⟩
+    let it : TCand := ⟨1, [], [⟨.conc ⟨{}, .scalar .int32⟩, .in⟩], 1⟩
+    let arg : List ETy := [⟨⟨{}, .scalar .int32⟩, .lvalue⟩]
+    (runSeq .free [.decl 0 fl, .helper 0 0 arg, .site 0 [] arg, .trigger 0 0, .decl 0 it, .site 0 [] arg, .define 0,
+        .site 0 [] arg, .trigger 0 0, .trigger 0 1, .site 1 [] arg]).map (fun x => (x.1, x.2.normalize)) =
+      [(2, .verdict (.accepted 0)), (3, .verdict (.accepted 0)), (5, .verdict (.accepted 1)), (7, .verdict (.accepted 1)),
+       (8, .cached), (9, .verdict (.accepted 1)), (10, .noname)] := by decide
+
+/-- non-vacuity of `visible_prefix_independent`: a site in `namespace N` after `N::f` was declared in two reopened blocks
+    in one order, and a method call in a struct that declares the same two overloads in the other order *below* the caller -/
+example :
+    let c0 : TCand := ⟨0, [], [⟨.conc ⟨{}, .scalar .float32⟩, .in⟩], 1⟩
+    let c1 : TCand := ⟨1, [], [⟨.conc ⟨{}, .vector .int32 2⟩, .in⟩], 1⟩
+    visibleAt .free [.decl 0 c1, .decl 1 c0, .site 2 [] [], .decl 1 c1] [.decl 1 ⟨2, [], [], 0⟩] 2 = some [c0, c1] ∧
+    visibleAt .method [] [.decl 0 c1, .decl 0 c0] 0 = some [c1, c0] ∧ List.Perm [c0, c1] [c1, c0] := by
+  refine ⟨by decide, by decide, ?_⟩
+  exact List.Perm.swap _ _ _
 
 /-- every syntactic fact the transcription relies on holds in the current source: the arity guard precedes
     `find_overload_casts`; the tournament compares all pairs, skips the candidate itself, loses only on `Worse`, its `zip`
